@@ -19,7 +19,8 @@ import random
 from .. import xl, wbrun
 from ..gen import workbooks as gw
 from ..ref import workbook as rw
-from .c07 import gen_overrides, to_inputs, _sparsify, _name_and_target
+from .c07 import (gen_overrides, to_inputs, _sparsify, _name_and_target,
+                  _ranges_over_arrays)
 from .c08 import _rect_nodes, _lib_arg
 
 ID = 'C17'
@@ -48,27 +49,6 @@ def _blank_targets(desc):
                 if not ev.populated((b, s, c, r)):
                     out.append((b, s, c, r))
     return sorted(set(out))
-
-
-def _ranges_over_arrays(rng, desc):
-    """Formulas reading rectangles that contain array formulas and their
-    neighbours (so that range nodes over multi-cell cells exist)."""
-    for b, bk in enumerate(desc['books']):
-        for s, sh in enumerate(bk['sheets']):
-            arrs = [c['arr'] for c in sh['cells'].values() if 'arr' in c]
-            for n, (c1, r1, c2, r2) in enumerate(arrs[:2]):
-                lo, hi = max(1, r1 - rng.randint(0, 1)), r2 + rng.randint(0, 2)
-                rect = ['rng', b, s, c1, lo, c2, hi]
-                sh['cells']['%s%d' % (gw.col_name(11), 1 + 2 * n)] = {
-                    'f': ['call', rng.choice(('SUM', 'MAX', 'COUNT')), [rect]]}
-                sh['cells']['%s%d' % (gw.col_name(11), 2 + 2 * n)] = {
-                    'f': ['bin', '+', ['call', 'SUM', [rect]], ['lit', 1.0]]}
-                # readers of single members of the array formula
-                sh['cells']['%s%d' % (gw.col_name(12), 1 + 2 * n)] = {
-                    'f': ['bin', '+', ['cell', b, s, c1, r1], ['lit', 0.0]]}
-                sh['cells']['%s%d' % (gw.col_name(12), 2 + 2 * n)] = {
-                    'f': ['bin', '*', ['cell', b, s, c1, r2], ['lit', 2.0]]}
-                desc.setdefault('focus_ranges', []).append(rect[1:])
 
 
 def gen_args(rng, desc):
